@@ -548,7 +548,7 @@ func mentionsCallGhost(e ast.Expr) bool {
 	found := false
 	ast.Inspect(e, func(n ast.Node) bool {
 		if c, ok := n.(*ast.CallExpr); ok {
-			if id, ok := c.Fun.(*ast.Ident); ok && (id.Name == "failed" || id.Name == "called" || id.Name == "result") {
+			if id, ok := c.Fun.(*ast.Ident); ok && (id.Name == "failed" || id.Name == "called" || id.Name == "result" || id.Name == "ncalls") {
 				found = true
 			}
 		}
